@@ -315,7 +315,7 @@ class NetworkGraph(AbstractBaseIR):
             # extract delay
             d = self.edges[s, t, e]['delay']
             if type(d) is list:
-                d = [1 if d_tmp is None else d_tmp for d_tmp in d]
+                d = [0 if d_tmp is None else d_tmp for d_tmp in d]
 
             # extract and process delay distribution spread
             v = self.edges[s, t, e].pop('spread', [0])
@@ -329,7 +329,8 @@ class NetworkGraph(AbstractBaseIR):
 
             # finalize edge delay
             if d is None or np.sum(d) == 0:
-                d = [1] * n_slots
+                # no delay: slot 0 of the ring buffer holds the current value of the source
+                d = [0] * n_slots
             else:
                 d = self._process_delays(d, discretize=discretize)
 
@@ -500,6 +501,9 @@ class NetworkGraph(AbstractBaseIR):
             return
 
         max_delay = np.max(delays)
+        if not max_delay and not (dde_approx or spreads):
+            # undelayed edge(s) only: nothing to buffer, the edge keeps reading the source variable itself
+            return
 
         # extract target shape and node
         node_var = self[f"{node}/{op}/{var}"]
@@ -664,7 +668,7 @@ class NetworkGraph(AbstractBaseIR):
 
             buffer_eqs = []
             for i, (d, sidx) in enumerate(zip(delays, source_idx)):
-                var_delayed = f"past({var}, {d})" if type(d) is float or d != 1 else var
+                var_delayed = f"past({var}, {d})" if d and (type(d) is float or d != 1) else var
                 if len(target_shape) < 1 or (len(target_shape) == 1 and target_shape[0] == 1):
                     buffer_eqs.append(f"{var}_buffered{buffer_id} = {var_delayed}")
                 else:
